@@ -143,6 +143,10 @@ func c10Eval(c *fw.Ctx, k c10Case) (sig, desc string, nontrivial bool) {
 	case "one-file-pattern":
 		cmd.SrcPattern = "a.wsp"
 		x = x[:1]
+	case "layout-mismatch-points":
+		// same archive count and steps, only the point count of the coarser archive differs
+		oa := wsp.ParseLayout("1s:2s,2s:8s")
+		(&BFile{L: wsp.Layout{Archs: oa, Method: 2}, Rings: EmptyRings(wsp.Layout{Archs: oa})}).Write(filepath.Join(root, "it", "x", "b.wsp"))
 	case "layout-mismatch":
 		o := LayoutByTag("L5")
 		(&BFile{L: wsp.Layout{Archs: o.Archs, Method: 2}, Rings: EmptyRings(wsp.Layout{Archs: o.Archs})}).Write(filepath.Join(root, "it", "x", "b.wsp"))
@@ -159,7 +163,7 @@ func c10Eval(c *fw.Ctx, k c10Case) (sig, desc string, nontrivial bool) {
 			return "C10/" + k.Mode + "/" + cls, fmt.Sprintf("%s: a pattern that matches nothing must be reported as not existing, got %s (%v)", ctx, cls, err), true
 		}
 		return "", "", true
-	case "layout-mismatch":
+	case "layout-mismatch", "layout-mismatch-points":
 		if len(k.Codes) < 2 {
 			return "", "", false
 		}
@@ -273,6 +277,11 @@ func runC10(c *fw.Ctx) {
 		if idx%97 == 0 {
 			for _, m := range []string{"nomatch-item", "nomatch-file", "layout-mismatch", "one-file-pattern"} {
 				one(c10Case{Layout: "L4", Now: now, Codes: codes, Base: base, Mode: m, Archive: -1, Header: true})
+			}
+			for _, arch := range []int{-1, 0, 1} {
+				for _, w := range wins {
+					one(c10Case{Layout: "L4", Now: now, Codes: codes, Base: base, Mode: "layout-mismatch-points", Archive: arch, From: w[0], Until: w[1]})
+				}
 			}
 		}
 	}
